@@ -155,6 +155,64 @@ func (s *c11Sess) annotation(n int) {
 
 func mustJSON(v interface{}) []byte { b, _ := json.Marshal(v); return b }
 
+// annotationRetag: N concurrent POSTs of an element at one position, each with another tag set.  Whatever
+// order they take effect in, afterwards the element must be listed under exactly the tags it carries — the tag
+// lists are part of the same read-modify-write as the block (the tags to erase are computed from the block read).
+func (s *c11Sess) annotationRetag(n int) {
+	name := fmt.Sprintf("annr%d", s.r.Intn(1<<30))
+	NewInstance(s.root, "annotation", name, nil)
+	base := "node/" + s.root + "/" + name + "/"
+	Post(base+"elements", mustJSON([]map[string]interface{}{annElemJSON(4, 5, 6, "Note", []string{"t0"}), annElemJSON(8, 8, 8, "Note", []string{"t0", "t1"})}))
+	var reqs []func() Resp
+	tags := []string{"t0"}
+	for i := 0; i < n; i++ {
+		t := fmt.Sprintf("t%d", i+1)
+		tags = append(tags, t)
+		body := mustJSON([]map[string]interface{}{annElemJSON(4, 5, 6, "Note", []string{t})})
+		reqs = append(reqs, func() Resp { return Post(base+"elements", body) })
+	}
+	rs, met := race("annotation.StoreElements", reqs)
+	s.c.Count(fmt.Sprintf("annotation retag x%d window-overlapped=%v", n, met))
+	for _, r := range rs {
+		if !r.OK() {
+			return
+		}
+	}
+	var els []struct {
+		Pos  [3]int
+		Tags []string
+	}
+	json.Unmarshal(Get(base+"elements/64_64_64/0_0_0").Body, &els)
+	var cur []string
+	found := 0
+	for _, e := range els {
+		if e.Pos == [3]int{4, 5, 6} {
+			cur = e.Tags
+			found++
+		}
+	}
+	s.c.Eval(fmt.Sprintf("annotation retag x%d", n), true)
+	hist := fmt.Sprintf("stored (4,5,6) tags [t0]; %d concurrent POST elements of (4,5,6) with tags [t1] .. [t%d]: %v", n, n, rs)
+	if found != 1 || len(cur) != 1 || cur[0] == "t0" {
+		s.report("annotation.StoreElements retag", "after concurrent acknowledged re-posts of one position the element is not what any one of them stored", fmt.Sprintf("%s\nelement at (4,5,6): found %d, tags %v", hist, found, cur), met)
+		return
+	}
+	for _, t := range tags {
+		listed := false
+		for _, p := range annPositions(Get(base + "tag/" + t).Body) {
+			if p == fmt.Sprint([3]int{4, 5, 6}) {
+				listed = true
+			}
+		}
+		carries := cur[0] == t
+		if listed != carries {
+			s.report("annotation.StoreElements retag", "after concurrent acknowledged re-posts of one position the tag lists disagree with the element's tags (no sequential order of the requests produces that)",
+				fmt.Sprintf("%s\nelement at (4,5,6) carries tags %v; listed under tag/%s: %v", hist, cur, t, listed), met)
+			return
+		}
+	}
+}
+
 // annotation, mixed: a delete and a post whose windows are made to overlap at the post's yield point
 func (s *c11Sess) annotationMixed() {
 	name := fmt.Sprintf("annm%d", s.r.Intn(1<<30))
@@ -483,6 +541,7 @@ func runC11(c *Ctx) {
 		}
 		s.annotation(n)
 		s.annotationMixed()
+		s.annotationRetag(n)
 		s.merges(n)
 		s.bodyOps()
 		s.newVersions(n)
